@@ -555,3 +555,113 @@ def attach_structure_monitors(which=("projection", "merge", "index")):
         for cls in (Histogram1D, HistogramND):
             attach.wrap(cls, "__getitem__", GetitemMonitor("__getitem__"))
             attach.wrap(cls, "select", GetitemMonitor("select"))
+
+
+# ---------------------------------------------------------------------------------------------
+# derived histograms stay what they were when the source later grows (and the other way round)
+
+
+def check_detached(rec: core.Recorder, *, prop: str, monitor: str, source, derived, grow_source: bool, point, op: str, detail=None):
+    """A projection / selection is a histogram of its own: growing the adaptive bins of one of (source, derived)
+    by filling `point` far outside leaves the other exactly as it was, and still well-formed (bins vs contents).
+    `point` is a coordinate tuple for the object that is filled."""
+    from ..attach import quiet
+
+    rec.mon(monitor)
+    grown, other = (source, derived) if grow_source else (derived, source)
+    with quiet():
+        before = snap.snapshot(other)
+        shape_before = tuple(grown.shape)
+    try:
+        grown.fill(point if grown.ndim > 1 else (point[0] if isinstance(point, (tuple, list)) else point))
+    except Exception as e:
+        rec.fail(prop=prop, monitor=monitor, op=op, symptom=f"filling after a derivation raised {type(e).__name__}", diff=["raised"],
+                 detail={**(detail or {}), "grown": "source" if grow_source else "derived", "error": str(e)[:160]})
+        return False
+    with quiet():
+        after = snap.snapshot(other)
+        dd = snap.diff(before, after)
+        probs = snap.wellformed_problems(other) + snap.wellformed_problems(grown)
+        grew = tuple(grown.shape) != shape_before
+    if dd or probs:
+        rec.fail(prop=prop, monitor=monitor, op=op, symptom="growing one of (source, derived histogram) changed or corrupted the other: they share state",
+                 diff=sorted(dd) or ["wellformed"], detail={**(detail or {}), "grown": "source" if grow_source else "derived", "problems": probs[:4]})
+        return False
+    return grew
+
+
+import random
+import warnings
+
+def detached_workload(ctx, index, rng, *, prop: str, monitor: str, inspect=None, kinds=("nd", "nd", "nd_switch", "cylindrical", "polar", "spherical")):
+    """A projection stays the marginal it was: it shares no bins with its source. Fixed-width axes that are (or are
+    later switched to) adaptive grow in place - growing the source must not reach the projection, nor the reverse."""
+    import physt
+    from physt import special_histograms as sp
+
+    rec = ctx.rec
+    kind = rng.choice(list(kinds))
+    n = rng.randint(5, 40)
+    adaptive_now = kind != "nd_switch"
+    with warnings.catch_warnings():
+        warnings.simplefilter("ignore")
+        if kind.startswith("nd"):
+            d = rng.choice([2, 3])
+            rows = np.array([[rng.uniform(0, 4) for _ in range(d)] for _ in range(n)])
+            h = physt.h(rows, "fixed_width", bin_width=rng.choice([0.5, 1.0, 2.0]), adaptive=adaptive_now, axis_names=[f"a{i}" for i in range(d)])
+            far = [rng.choice([9.0, -7.5, 12.25]) for _ in range(d)]
+        else:
+            pts = np.array([[rng.gauss(0, 1) for _ in range(3)] for _ in range(n)])
+            if kind == "cylindrical":
+                h = sp.cylindrical(pts, rho_bins="fixed_width", z_bins="fixed_width", bin_width=0.5, adaptive=True)
+                far = [rng.choice([6.0, 9.5]), 0.3, rng.choice([7.0, -6.5])]
+            elif kind == "polar":
+                h = sp.polar(pts[:, 0], pts[:, 1], radial_bins="fixed_width", bin_width=0.5, adaptive=True)
+                far = [rng.choice([8.0, 10.0]), 0.4]
+            else:
+                h = sp.spherical(pts, radial_bins="fixed_width", bin_width=0.5, adaptive=True)
+                far = [rng.choice([8.0, 11.0]), 0.3, 0.4]
+            d = h.ndim
+        k = rng.randint(1, d - 1)
+        axes = sorted(rng.sample(range(d), k))
+        how = rng.choice(["projection", "projection", "select"])
+        try:
+            if how == "projection":
+                g = h.projection(*axes)
+            else:
+                drop = rng.randrange(d)
+                axes = [a for a in range(d) if a != drop]
+                g = h.select(drop, rng.randrange(h.shape[drop]))
+        except Exception as e:
+            rec.fail(prop=prop, monitor=monitor, op=f"{kind}.{how}", symptom=f"derivation raised {type(e).__name__}", diff=["raised"], detail={"error": str(e)[:160]})
+            return
+        is_transformed = not kind.startswith("nd")
+        # transformed sources take cartesian points; their derived objects are grown only through the source here
+        grow_source = True if is_transformed else rng.random() < 0.5
+        target = h if grow_source else g
+        if not adaptive_now:
+            try:
+                target.set_adaptive(True)
+            except Exception:
+                rec.case(["detached", kind, "no_adaptive"], False, cls=f"detached/{kind}/refused")
+                return
+        if is_transformed:
+            point = [far[0], 0.3, far[2] if len(far) > 2 else 0.0][: (2 if kind == "polar" else 3)]
+        else:
+            point = list(far) if grow_source else [far[a] for a in axes]
+        grew = check_detached(rec, prop=prop, monitor=monitor, source=h, derived=g, grow_source=grow_source, point=tuple(point),
+                                        op=f"{kind}.{how}{tuple(axes)} then fill {'source' if grow_source else 'derived'}", detail={"kind": kind, "axes": axes})
+        if inspect is not None and grew:
+            other = g if grow_source else h
+            from ..attach import quiet
+            with quiet():
+                try:
+                    probs = inspect(other)
+                except Exception as e:
+                    probs = [f"inspection raised {type(e).__name__}: {str(e)[:100]}"]
+            if probs:
+                rec.fail(prop=prop, monitor=monitor, op=f"{kind}.{how}{tuple(axes)} then fill {'source' if grow_source else 'derived'}",
+                         symptom="the histogram that was not touched no longer describes itself consistently", diff=["geometry"], detail={"problems": probs[:4]})
+    rec.case(["detached", kind, how, axes, grow_source, far], bool(grew), cls=f"detached/{kind}/{how}/{'source' if grow_source else 'derived'}")
+
+
